@@ -6,7 +6,8 @@ The request is executed for L, L-1 and 1 leapfrog steps with the same key. HMC.e
 initial momentum from `split(key)[1]` folded with the leaf index, independently of L, so all
 these runs share the momentum and their trajectories are prefixes of each other.
 
-Oracle (scipy float64, central-difference gradient of the reference log density):
+Oracle (closed-form float64 log densities self-tested against scipy.stats, central-difference
+gradient of the reference log density):
   * p0 = (x1 - x0)/eps - (eps/2) grad log p(x0)                  (from the L = 1 run)
   * end point of the L-step run == independent leapfrog integration from (x0, p0)
   * alpha == H(start) - H(end), H = -log p + |p|^2/2, evaluated on the trajectory the code
@@ -52,21 +53,29 @@ def _site_params(site, vals, arg):
     return loc, sc
 
 
+def _norm_logpdf(v, loc, sc):
+    z = (v - loc) / sc
+    return -0.5 * z * z - math.log(sc) - 0.5 * math.log(2.0 * math.pi)
+
+
 def _site_logpdf(site, v, vals, arg, kinks=None):
     d = site["dist"]
     if d == "categorical":
         return float(log_softmax(np.asarray(site["logits"], dtype=np.float64))[int(v)])
     loc, sc = _site_params(site, vals, arg)
+    # closed forms (scipy's laplace/cauchy logpdf = log(pdf) loses precision where the pdf is
+    # subnormal); self-tested against scipy.stats at moderate arguments in _selftest
     if d == "normal":
-        return float(sps.norm.logpdf(v, loc=loc, scale=sc))
+        return _norm_logpdf(v, loc, sc)
     if d == "laplace":
         if kinks is not None:
             kinks.append(abs(v - loc) / max(1.0, abs(v), abs(loc)))
-        return float(sps.laplace.logpdf(v, loc=loc, scale=sc))
+        return -abs(v - loc) / sc - math.log(2.0 * sc)
     if d == "cauchy":
-        return float(sps.cauchy.logpdf(v, loc=loc, scale=sc))
+        z = (v - loc) / sc
+        return -math.log(math.pi * sc) - math.log1p(z * z)
     if d == "exponential":
-        return float(sps.expon.logpdf(v, scale=1.0 / sc))
+        return math.log(sc) - sc * v if v >= 0 else -math.inf
     if d == "flip":
         # probability sigmoid(3 tanh(loc/3)) stays in [0.047, 0.953]: float32 log(1-p) keeps its precision
         p = float(expit(3.0 * math.tanh(loc / 3.0)))
@@ -101,8 +110,8 @@ class Ref:
             xs, ys = self.assemble(z)
             prev, out = self.arg, []
             for x, y in zip(xs, ys):
-                out.append(float(sps.norm.logpdf(x, loc=sc["a"] * prev + sc["b"], scale=sc["s1"])))
-                out.append(float(sps.norm.logpdf(y, loc=sc["c"] * x, scale=sc["s2"])))
+                out.append(_norm_logpdf(x, sc["a"] * prev + sc["b"], sc["s1"]))
+                out.append(_norm_logpdf(y, sc["c"] * x, sc["s2"]))
                 prev = x
             return out
         vals = self.assemble(z)
@@ -483,7 +492,7 @@ def check_run(case, prog, run, ctx=None, force_full=False):
     kink_ok = ref.kink_margin(x0) > 1e-4
     g0 = ref.grad(x0)
     p0 = [(a - b) / eps - 0.5 * eps * g for a, b, g in zip(xs[1], x0, g0)]
-    dp0 = [2 * _ulp(a, b) / eps + 1e-5 * (abs(p) + eps * (1.0 + abs(g))) for a, b, p, g in zip(xs[1], x0, p0, g0)]
+    dp0 = [4 * _ulp(a, b) / eps + 1e-5 * (abs(p) + eps * (1.0 + abs(g))) for a, b, p, g in zip(xs[1], x0, p0, g0)]
 
     # ---- alpha == H(start) - H(end) on the produced trajectory ---------------------------
     for k in steps:
@@ -495,7 +504,7 @@ def check_run(case, prog, run, ctx=None, force_full=False):
             continue
         gk = ref.grad(xs[k])
         pk = [(a - b) / eps + 0.5 * eps * g for a, b, g in zip(xs[k], xs[k - 1], gk)]
-        dpk = [2 * _ulp(a, b) / eps + 1e-5 * (abs(p) + eps * (1.0 + abs(g))) for a, b, p, g in zip(xs[k], xs[k - 1], pk, gk)]
+        dpk = [4 * _ulp(a, b) / eps + 1e-5 * (abs(p) + eps * (1.0 + abs(g))) for a, b, p, g in zip(xs[k], xs[k - 1], pk, gk)]
         K0, Kk = 0.5 * sum(p * p for p in p0), 0.5 * sum(p * p for p in pk)
         want = (lps[k][0] - lp0) + K0 - Kk
         allterms = lp0_terms + lps[k][1]
@@ -713,6 +722,15 @@ def _selftest():
     assert abs(back[-1][0] - 1.0) < 1e-7 and abs(pb[0] + 0.5) < 1e-7
     fl = {"dist": "flip", "loc": {"c": 0.2, "arg": 0.0, "deps": []}, "scale": {"s0": 1.0, "deps": []}}
     assert abs(_site_logpdf(fl, 1.0, [], 0.0) - math.log(1 / (1 + math.exp(-3.0 * math.tanh(0.2 / 3.0))))) < 1e-12
+    scipy_ref = {"normal": sps.norm, "laplace": sps.laplace, "cauchy": sps.cauchy}
+    for d, dist in scipy_ref.items():
+        for v in (-7.5, -0.3, 0.0, 1.25, 20.0):
+            for c, s0 in ((0.0, 1.0), (-1.5, 0.4), (2.0, 2.5)):
+                site = {"dist": d, "loc": {"c": c, "arg": 0.0, "deps": []}, "scale": {"s0": s0, "deps": []}}
+                a, b = _site_logpdf(site, v, [], 0.0), float(dist.logpdf(v, loc=c, scale=s0))
+                assert abs(a - b) <= 1e-10 * max(1.0, abs(b)), (d, v, c, s0, a, b)
+    ex = {"dist": "exponential", "loc": {"c": 0.0, "arg": 0.0, "deps": []}, "scale": {"s0": 1.5, "deps": []}}
+    assert abs(_site_logpdf(ex, 2.0, [], 0.0) - float(sps.expon.logpdf(2.0, scale=1 / 1.5))) < 1e-12
     cat = {"dist": "categorical", "logits": [0.0, 1.0, -1.0]}
     assert abs(_site_logpdf(cat, 1, [], 0.0) - (1.0 - math.log(1 + math.e + math.exp(-1)))) < 1e-12
 
@@ -741,7 +759,7 @@ def run(ctx):
     allow_disc = not ctx.is_open(K_DISCRETE)
     ctx.extra["full_mode"] = "1" if full_mode() else "0"
     ctx.extra["tolerances"] = (
-        "end point: 2*sensitivity to the recovered-momentum uncertainty (2 ulp(x)/eps) + 1e-3*|displacement| + 4(L+1) ulp; "
+        "end point: 2*sensitivity to the recovered-momentum uncertainty (4 ulp(x)/eps) + 1e-3*|displacement| + 4(L+1) ulp; "
         "alpha: 2e-5*k*max(1,M) score terms + |p| dp momentum terms + 1e-3*|alpha|"
     )
 
